@@ -1368,6 +1368,353 @@ fn bit_strings(ctx: &Ctx) {
     sp.done(true, "all octet counts 0..=16 x 3 fills x 256 last octets x 8 unused-bit counts x 3 entry points");
 }
 
+//------------ the scale dimension: sets of many blocks ------------------------------------------------
+
+/// Interval model for sets too large for a bitmask: sorted, disjoint, non-adjacent family-unit ranges.
+type Iv = Vec<(u128, u128)>;
+
+fn iv_norm(mut v: Iv) -> Iv {
+    v.sort();
+    let mut out: Iv = Vec::new();
+    for (a, b) in v {
+        if let Some(l) = out.last_mut() { if a <= l.1 || l.1.checked_add(1) == Some(a) { if b > l.1 { l.1 = b } continue } }
+        out.push((a, b));
+    }
+    out
+}
+fn iv_compl(a: &Iv, max: u128) -> Iv {
+    let mut out = Vec::new(); let mut next = Some(0u128);
+    for &(lo, hi) in a { if let Some(n) = next { if lo > n { out.push((n, lo - 1)) } } next = if hi == max { None } else { Some(hi + 1) } }
+    if let Some(n) = next { out.push((n, max)) }
+    out
+}
+fn iv_inter(a: &Iv, b: &Iv) -> Iv {
+    let (mut i, mut j, mut out) = (0, 0, Vec::new());
+    while i < a.len() && j < b.len() {
+        let (lo, hi) = (a[i].0.max(b[j].0), a[i].1.min(b[j].1));
+        if lo <= hi { out.push((lo, hi)) }
+        if a[i].1 < b[j].1 { i += 1 } else { j += 1 }
+    }
+    out
+}
+fn iv_union(a: &Iv, b: &Iv) -> Iv { let mut v = a.clone(); v.extend_from_slice(b); iv_norm(v) }
+fn iv_diff(a: &Iv, b: &Iv, max: u128) -> Iv { iv_inter(a, &iv_compl(b, max)) }
+/// The interval that contains x, if any.
+fn iv_find(a: &Iv, x: u128) -> Option<usize> { a.iter().position(|r| r.0 <= x && x <= r.1) }
+fn iv_covers(a: &Iv, lo: u128, hi: u128) -> bool { a.iter().any(|r| r.0 <= lo && hi <= r.1) }
+fn iv_meets(a: &Iv, lo: u128, hi: u128) -> bool { a.iter().any(|r| r.0 <= hi && lo <= r.1) }
+fn iv_subset(a: &Iv, b: &Iv) -> bool { a.iter().all(|r| iv_covers(b, r.0, r.1)) }
+
+fn iv_repr(kind: Kind, a: &Iv) -> Repr {
+    a.iter().map(|&(lo, hi)| match kind {
+        Kind::As => Blk { var: if lo == hi { 0 } else { 1 }, min: lo, max: hi, len: 0 },
+        k => match prefix_len(lo, hi, k.width()) {
+            Some(l) => Blk { var: 0, min: k.lib_min(lo), max: k.lib_max(hi), len: l },
+            None => Blk { var: 1, min: k.lib_min(lo), max: k.lib_max(hi), len: 0 },
+        },
+    }).collect()
+}
+
+fn kind_addr_txt(kind: Kind, x: u128) -> String { match kind { Kind::As => format!("AS{x}"), Kind::V4 => v4_txt(x), Kind::V6 => Ipv6Addr::from(x).to_string() } }
+fn kind_block_txt(kind: Kind, lo: u128, hi: u128) -> String { if lo == hi { kind_addr_txt(kind, lo) } else { format!("{}-{}", kind_addr_txt(kind, lo), kind_addr_txt(kind, hi)) } }
+
+const FAMILIES: &[&str] = &["singles", "aligned-pairs", "triples", "irregular", "irregular-at-top", "thinned-singles", "aligned-256"];
+
+/// The i-th structured family with n blocks (all disjoint and non-adjacent by construction):
+/// singles {2i}; aligned-pairs [4i,4i+1]; triples [4i+1,4i+3]; irregular: from 5, width 1+(i%3)+(i%2),
+/// gap 1+(7i%5); irregular-at-top: the same from 0, mirrored so that it ends at MAX; thinned-singles:
+/// the singles with every third one missing; aligned-256 [256i, 256i+127].
+fn family(kind: Kind, f: usize, n: usize) -> Iv {
+    let n = n as u128;
+    let irregular = |start: u128| { let mut v = Vec::new(); let mut c = start; for i in 0..n { let w = 1 + (i % 3) + (i % 2); v.push((c, c + w - 1)); c += w + 1 + (7 * i % 5) } v };
+    match f {
+        0 => (0..n).map(|i| (2 * i, 2 * i)).collect(),
+        1 => (0..n).map(|i| (4 * i, 4 * i + 1)).collect(),
+        2 => (0..n).map(|i| (4 * i + 1, 4 * i + 3)).collect(),
+        3 => irregular(5),
+        4 => { let m = kind.fam_max(); let mut v: Iv = irregular(0).into_iter().map(|(a, b)| (m - b, m - a)).collect(); v.reverse(); v }
+        5 => (0..n).map(|i| { let j = i + i / 2; (2 * j, 2 * j) }).collect(),
+        _ => (0..n).map(|i| (256 * i, 256 * i + 127)).collect(),
+    }
+}
+
+fn block_counts() -> Vec<usize> { let mut v: Vec<usize> = (0..=40).collect(); v.extend([63, 64, 65, 127, 128, 129, 255, 256, 257, 1023, 1024, 1025]); v }
+
+fn val_from_iv(kind: Kind, it: impl Iterator<Item = (u128, u128)>) -> Val {
+    match kind {
+        Kind::As => Val::As(it.map(|(a, b)| AsBlock::from((asn(a), asn(b)))).collect()),
+        k => Val::Ip(it.map(|(a, b)| IpBlock::from(AddressRange::new(addr(k.lib_min(a)), addr(k.lib_max(b))))).collect()),
+    }
+}
+
+const SCALE_PATHS: &[&str] = &["from_iter_sorted", "from_iter_reversed", "from_iter_interleaved", "text", "der"];
+
+fn scale_build(kind: Kind, path: usize, iv: &Iv) -> Result<Val, String> {
+    match path {
+        0 => Ok(val_from_iv(kind, iv.iter().copied())),
+        1 => Ok(val_from_iv(kind, iv.iter().rev().copied())),
+        2 => Ok(val_from_iv(kind, iv.iter().step_by(2).chain(iv.iter().skip(1).step_by(2)).copied())),
+        3 => {
+            let t = iv.iter().map(|&(a, b)| kind_block_txt(kind, a, b)).collect::<Vec<_>>().join(", ");
+            match kind {
+                Kind::As => AsBlocks::from_str(&t).map(Val::As).map_err(|e| e.to_string()),
+                Kind::V4 => Ipv4Blocks::from_str(&t).map(|x| Val::Ip((*x).clone())).map_err(|e| e.to_string()),
+                Kind::V6 => Ipv6Blocks::from_str(&t).map(|x| Val::Ip((*x).clone())).map_err(|e| e.to_string()),
+            }
+        }
+        _ => {
+            let items: Vec<Vec<u8>> = iv.iter().map(|&(a, b)| match kind {
+                Kind::As => if a == b { der::int_u(a) } else { der::seq(&[der::int_u(a), der::int_u(b)]) },
+                k => match prefix_len(a, b, k.width()) { Some(l) => der::ip_prefix_bits(a, l, k.width() as u8), None => der::ip_range(a, b, k.width() as u8) },
+            }).collect();
+            let bytes = der::seq(&items);
+            match kind {
+                Kind::As => Mode::Der.decode(bytes.as_slice(), |c| AsBlocks::take_from(c)).map(Val::As).map_err(|e| e.to_string()),
+                k => Mode::Der.decode(bytes.as_slice(), |c| IpBlocks::take_from_with_family(c, if k == Kind::V4 { AddressFamily::Ipv4 } else { AddressFamily::Ipv6 })).map(Val::Ip).map_err(|e| e.to_string()),
+            }
+        }
+    }
+}
+
+/// Sets with 0..=40, 63..65, 127..129, 255..257 and 1023..1025 blocks from seven structured families:
+/// construction, every per-item / per-block query at and around every block, round trips, and the
+/// set operations between the families -- against the interval model.
+fn scale(ctx: &Ctx, kind: Kind, name: &str) {
+    let counts = block_counts();
+    let max = kind.fam_max();
+    let sp = ctx.space(&format!("{name}.scale.sets"),
+        "number of blocks n in 0..=40, 63..65, 127..129, 255..257, 1023..1025 (all in both tiers) x 7 structured families (singles {2i}; aligned pairs [4i,4i+1]; triples [4i+1,4i+3]; irregular widths 1+(i%3)+(i%2) and gaps 1+(7i%5) from 5; the same mirrored so that it ends at MAX; singles with every third missing; aligned [256i,256i+127]) x construction (FromIterator sorted / reversed / evens-then-odds, FromStr, DER from the independent encoder) compared literally with the interval model's canonical blocks; then, on every set: membership at the first, last and middle number of every block, one below and above it, the middle of every gap, 0 and MAX (contains_asn, ResourceSet::contains_asn, contains of a one-number set; contains_block / intersects_block / contains_roa / contains_roa_address of the single address); per block: the block itself, the block widened by one, the gap after it, the bridge to the next block (contains_block, intersects_block, contains; contains_roa of the block's prefix and its parent); iter_asns compared item by item; range-to-prefix decomposition of every stored block; Display->FromStr and DER round trips; non-trivial = probes on sets of 17 or more blocks");
+    let work: Vec<(usize, usize)> = counts.iter().flat_map(|&n| (0..FAMILIES.len()).map(move |f| (n, f))).collect();
+    let pfx = format!("C03.{name}.scale");
+    let values: Vec<Option<(Iv, Val)>> = work.par_iter().map(|&(n, f)| {
+        let iv = family(kind, f, n);
+        debug_assert_eq!(iv_norm(iv.clone()), iv);
+        let want = iv_repr(kind, &iv);
+        let id = format!("family={} blocks={n}", FAMILIES[f]);
+        let mut oc: BTreeMap<&'static str, u64> = BTreeMap::new();
+        let (mut evals, mut nontriv) = (0u64, 0u64);
+        let big = n >= 17;
+        // construction
+        let mut value: Option<Val> = None;
+        for (p, pname) in SCALE_PATHS.iter().enumerate() {
+            evals += 1;
+            match guard(|| scale_build(kind, p, &iv)) {
+                Err(pn) => ctx.fail(&format!("{pfx}.construct.{pname}.panic"), id.clone(), pn),
+                Ok(Err(e)) => ctx.fail(&format!("{pfx}.construct.{pname}.accept"), id.clone(), format!("well-formed blocks rejected: {e}")),
+                Ok(Ok(v)) => {
+                    if same(&v, &want) { *oc.entry("constructed-canonical").or_insert(0) += 1; if value.is_none() { value = Some(v) } }
+                    else {
+                        *oc.entry("constructed-wrong").or_insert(0) += 1;
+                        let r = repr_of(&v);
+                        let law = if denoted(&r) != want.iter().map(|b| (b.min, b.max)).collect::<Vec<_>>() { "set" } else { "canonical" };
+                        ctx.fail(&format!("{pfx}.construct.{pname}.{law}"), id.clone(), format!("stored {} blocks, first difference at block {}", r.len(), r.iter().zip(want.iter()).position(|(a, b)| a != b).unwrap_or(r.len().min(want.len()))));
+                    }
+                }
+            }
+        }
+        let Some(v) = value else { sp.evals(evals); sp.merge_outcomes(&oc); return None };
+        // probes
+        let mut pts: Vec<u128> = vec![0, max];
+        for (i, &(lo, hi)) in iv.iter().enumerate() {
+            pts.extend([lo, hi, lo + (hi - lo) / 2]);
+            if lo > 0 { pts.push(lo - 1) } if hi < max { pts.push(hi + 1) }
+            if let Some(nx) = iv.get(i + 1) { pts.push(hi + (nx.0 - hi) / 2) }
+        }
+        pts.sort(); pts.dedup();
+        for &x in &pts {
+            let inside = iv_find(&iv, x).is_some();
+            evals += 1; if big { nontriv += 1 }
+            *oc.entry(if inside { "member" } else { "non-member" }).or_insert(0) += 1;
+            let w = || format!("{id} item={}", kind_addr_txt(kind, x));
+            match &v {
+                Val::As(b) => {
+                    ctx.check(&format!("{pfx}.contains_asn"), w, || { let g = b.contains_asn(asn(x)); if g == inside { Ok(()) } else { Err(format!("contains_asn returned {g}")) } });
+                    ctx.check(&format!("{pfx}.resource_set_contains_asn"), w, || { let g = ResourceSet::new(b.clone(), Ipv4Blocks::empty(), Ipv6Blocks::empty()).contains_asn(asn(x)); if g == inside { Ok(()) } else { Err(format!("ResourceSet::contains_asn returned {g}")) } });
+                    ctx.check(&format!("{pfx}.contains_one"), w, || { let o: AsBlocks = [AsBlock::from(asn(x))].into_iter().collect(); let g = b.contains(&o); if g == inside { Ok(()) } else { Err(format!("contains of the one-number set returned {g}")) } });
+                }
+                Val::Ip(b) => {
+                    let (lo, hi) = (addr(kind.lib_min(x)), addr(kind.lib_max(x)));
+                    ctx.check(&format!("{pfx}.contains_block"), w, || { let g = b.contains_block((lo, hi)); if g == inside { Ok(()) } else { Err(format!("contains_block(single address) returned {g}")) } });
+                    ctx.check(&format!("{pfx}.intersects_block"), w, || { let g = b.intersects_block((lo, hi)); if g == inside { Ok(()) } else { Err(format!("intersects_block(single address) returned {g}")) } });
+                    ctx.check(&format!("{pfx}.contains_roa"), w, || {
+                        let roa = RoaIpAddress::new(Prefix::new(lo, kind.width() as u8), None);
+                        let g = b.contains_roa(&roa);
+                        let rs = if kind == Kind::V4 { ResourceSet::new(AsBlocks::empty(), b.clone().into(), Ipv6Blocks::empty()) } else { ResourceSet::new(AsBlocks::empty(), Ipv4Blocks::empty(), b.clone().into()) };
+                        let g2 = rs.contains_roa_address(&roa);
+                        if g == inside && g2 == inside { Ok(()) } else { Err(format!("contains_roa returned {g}, ResourceSet::contains_roa_address {g2}")) } });
+                }
+            }
+        }
+        // blocks around every block
+        for (i, &(lo, hi)) in iv.iter().enumerate() {
+            let mut qs: Vec<(u128, u128)> = vec![(lo, hi)];
+            if lo > 0 { qs.push((lo - 1, hi)) } if hi < max { qs.push((lo, hi + 1)) }
+            if let Some(nx) = iv.get(i + 1) { qs.push((hi + 1, nx.0 - 1)); qs.push((hi, nx.0)) }
+            for (a, c) in qs {
+                let (cov, meets) = (iv_covers(&iv, a, c), iv_meets(&iv, a, c));
+                evals += 1; if big { nontriv += 1 }
+                *oc.entry(if cov { "block-inside" } else if meets { "block-partly-inside" } else { "block-outside" }).or_insert(0) += 1;
+                let w = || format!("{id} block={}", kind_block_txt(kind, a, c));
+                match &v {
+                    Val::As(b) => { ctx.check(&format!("{pfx}.contains_blocks_of_one"), w, || { let o: AsBlocks = [AsBlock::from((asn(a), asn(c)))].into_iter().collect(); let g = b.contains(&o); if g == cov { Ok(()) } else { Err(format!("contains returned {g}")) } }); }
+                    Val::Ip(b) => {
+                        let (l, h) = (addr(kind.lib_min(a)), addr(kind.lib_max(c)));
+                        ctx.check(&format!("{pfx}.contains_block"), w, || { let g = b.contains_block((l, h)); if g == cov { Ok(()) } else { Err(format!("contains_block returned {g}")) } });
+                        ctx.check(&format!("{pfx}.intersects_block"), w, || { let g = b.intersects_block((l, h)); if g == meets { Ok(()) } else { Err(format!("intersects_block returned {g}")) } });
+                    }
+                }
+            }
+            if let (Val::Ip(b), Some(l)) = (&v, prefix_len(lo, hi, kind.width())) {
+                for len in [l, l.saturating_sub(1)] {
+                    evals += 1;
+                    let keep = (if len == 0 { 0 } else { u128::MAX << (kind.width() - len as u32) }) & max;
+                    let host = if len as u32 == kind.width() { 0 } else { max >> len };
+                    let (a, c) = (lo & keep, (lo & keep) | host);
+                    let cov = iv_covers(&iv, a, c);
+                    ctx.check(&format!("{pfx}.contains_roa"), || format!("{id} prefix={}/{len}", kind_addr_txt(kind, a)), || { let g = b.contains_roa(&RoaIpAddress::new(Prefix::new(addr(kind.lib_min(a)), len), None)); if g == cov { Ok(()) } else { Err(format!("contains_roa returned {g}")) } });
+                }
+            }
+        }
+        // iteration, prefix decomposition, round trips
+        evals += 3;
+        match &v {
+            Val::As(b) => {
+                ctx.check(&format!("{pfx}.iter_asns"), || id.clone(), || {
+                    let mut model = iv.iter().flat_map(|&(a, c)| (a as u32)..=(c as u32));
+                    let mut k = 0u64;
+                    for got in b.iter_asns() { match model.next() { Some(w) if w == got.into_u32() => k += 1, other => return Err(format!("item {k} is {got}, the model has {other:?}")) } }
+                    if let Some(w) = model.next() { return Err(format!("iter_asns ends after {k} items, the model continues with AS{w}")) }
+                    let total: u128 = iv.iter().map(|r| r.1 - r.0 + 1).sum();
+                    if total <= u32::MAX as u128 && b.asn_count() as u128 != total { return Err(format!("asn_count returned {}, the set has {total} members", b.asn_count())) }
+                    Ok(()) });
+            }
+            Val::Ip(b) => {
+                ctx.check(&format!("{pfx}.to_prefixes"), || id.clone(), || { for blk in b.iter() { let (a, c) = (blk.min().to_bits(), blk.max().to_bits()); check_prefixes(kind, a, c, &to_prefixes(kind, a, c)).map_err(|e| format!("block {a:#x}-{c:#x}: {e}"))? } Ok(()) });
+            }
+        }
+        ctx.check(&format!("{pfx}.display_fromstr"), || id.clone(), || {
+            let back = match &v { Val::As(b) => AsBlocks::from_str(&b.to_string()).map(Val::As).map_err(|e| e.to_string()),
+                Val::Ip(b) => if kind == Kind::V4 { Ipv4Blocks::from_str(&Ipv4Blocks::from(b.clone()).to_string()).map(|x| Val::Ip((*x).clone())).map_err(|e| e.to_string()) } else { Ipv6Blocks::from_str(&Ipv6Blocks::from(b.clone()).to_string()).map(|x| Val::Ip((*x).clone())).map_err(|e| e.to_string()) } }?;
+            if same(&back, &want) && val_eq(&back, &v) { Ok(()) } else { Err("the printed form parses back as another value".into()) } });
+        ctx.check(&format!("{pfx}.der"), || id.clone(), || {
+            let back = match &v { Val::As(b) => Mode::Der.decode(encode::sequence(b.encode_ref()).to_captured(Mode::Der).as_slice(), |c| AsBlocks::take_from(c)).map(Val::As).map_err(|e| e.to_string()),
+                Val::Ip(b) => Mode::Der.decode(b.encode_ref().to_captured(Mode::Der).as_slice(), |c| IpBlocks::take_from(c)).map(Val::Ip).map_err(|e| e.to_string()) }?;
+            if same(&back, &want) && val_eq(&back, &v) { Ok(()) } else { Err("the encoded form decodes as another value".into()) } });
+        sp.evals(evals); sp.nontrivial(nontriv); sp.merge_outcomes(&oc);
+        Some((iv, v))
+    }).collect();
+    sp.set("block_counts", json!(counts)); sp.set("families", json!(FAMILIES)); sp.set("paths", json!(SCALE_PATHS));
+    sp.sample_str(|| format!("{name}: irregular family with 5 blocks = {:?}", family(kind, 3, 5)));
+    sp.done(true, &format!("{} block counts x {} families x {} construction paths + all probes", counts.len(), FAMILIES.len(), SCALE_PATHS.len()));
+
+    // operations between the families of one block count
+    let sp = ctx.space(&format!("{name}.scale.ops"),
+        "for every block count (as above) every ordered pair of the 7 structured families of that count: union, intersection, difference, intersection_assign, verify_issued(refuse), verify_issued(trim), RequestResourceLimit::apply_to, == and contains, each result compared literally with the interval model; non-trivial = pairs of different families with 17 or more blocks");
+    let nf = FAMILIES.len();
+    let pairs: Vec<(usize, usize, usize)> = (0..counts.len()).flat_map(|c| (0..nf * nf).map(move |p| (c, p / nf, p % nf))).collect();
+    let pfx = format!("C03.{name}.scale.ops");
+    pairs.par_iter().for_each(|&(c, f, g)| {
+        let (Some((ia, a)), Some((ib, b))) = (values[c * nf + f].as_ref(), values[c * nf + g].as_ref()) else { return };
+        let n = counts[c];
+        let mut oc: BTreeMap<&'static str, u64> = BTreeMap::new();
+        let wit = |op: &str| format!("op={op} a=(family={} blocks={n}) b=(family={} blocks={n})", FAMILIES[f], FAMILIES[g]);
+        let sub = iv_subset(ib, ia);
+        for (op, opname) in OPS.iter().enumerate() {
+            let want: Option<Iv> = match op { 0 => Some(iv_union(ia, ib)), 1 | 3 | 5 => Some(iv_inter(ia, ib)), 2 => Some(iv_diff(ia, ib, max)), _ => if sub { Some(ib.clone()) } else { None } };
+            match guard(|| apply_op(kind, op, a, b)) {
+                Err(p) => ctx.fail(&format!("{pfx}.{opname}.panic"), wit(opname), p),
+                Ok(got) => match (got, want) {
+                    (None, None) => { *oc.entry("refused").or_insert(0) += 1; }
+                    (Some(v), Some(w)) => {
+                        let wr = iv_repr(kind, &w);
+                        if same(&v, &wr) { *oc.entry(if w.is_empty() { "result-empty" } else { "result-nonempty" }).or_insert(0) += 1; }
+                        else { let r = repr_of(&v); ctx.fail(&format!("{pfx}.{opname}.{}", if denoted(&r) != wr.iter().map(|b| (b.min, b.max)).collect::<Vec<_>>() { "set" } else { "canonical" }), wit(opname),
+                            format!("result has {} blocks, the model {}; first difference at block {}", r.len(), wr.len(), r.iter().zip(wr.iter()).position(|(x, y)| x != y).unwrap_or(r.len().min(wr.len())))) }
+                    }
+                    (Some(_), None) => ctx.fail(&format!("{pfx}.{opname}.refuse"), wit(opname), "b is not contained in a, yet the operation returned a value".to_string()),
+                    (None, Some(_)) => ctx.fail(&format!("{pfx}.{opname}.accept"), wit(opname), "b is contained in a, yet the operation refused".to_string()),
+                },
+            }
+        }
+        match guard(|| (val_eq(a, b), val_contains(a, b))) {
+            Err(p) => ctx.fail(&format!("{pfx}.pair_query.panic"), wit("eq/contains"), p),
+            Ok((e, cn)) => {
+                if e != (ia == ib) { ctx.fail(&format!("{pfx}.eq"), wit("=="), format!("== returned {e}")) }
+                if cn != sub { ctx.fail(&format!("{pfx}.contains"), wit("contains"), format!("a.contains(b) returned {cn}")) }
+            }
+        }
+        sp.evals(OPS.len() as u64 + 2); if f != g && n >= 17 { sp.nontrivial(1) } sp.merge_outcomes(&oc);
+    });
+    sp.done(true, &format!("{} block counts x {} ordered pairs of families x {} operations", counts.len(), nf * nf, OPS.len() + 2));
+}
+
+/// AS block iteration at power-of-two item counts, and (thorough) the whole number space.
+fn as_iteration(ctx: &Ctx) {
+    let sp = ctx.space("as.scale.iteration",
+        "AS blocks with 2^k-1, 2^k, 2^k+1 numbers for k in 0..=20, placed at AS0, AS1, AS12345, ending at MAX-1 and ending at MAX: AsBlock::iter() and AsBlocks::iter_asns() run to the end -- every item, the count, the last item, and the Iterator::size_hint contract (lower <= remaining <= upper) before and half way; size_hint against the model count (no iteration) also for AS0-MAX, AS1-MAX, AS0-MAX-1; THOROUGH ONLY: those three blocks iterated to the end (2^32 steps each; the iterator has no O(1) skip, so quick cannot reach their last item); non-trivial = blocks of more than one number");
+    let max = u32::MAX as u64;
+    let mut blocks: Vec<(u64, u64)> = Vec::new();
+    for k in 0..=20u32 { for c in [(1u64 << k) - 1, 1 << k, (1 << k) + 1] { if c == 0 { continue }
+        for lo in [0u64, 1, 12345] { blocks.push((lo, lo + c - 1)) }
+        blocks.push((max - c, max - 1)); blocks.push((max + 1 - c, max));
+    } }
+    blocks.sort(); blocks.dedup();
+    let hint_ok = |h: (usize, Option<usize>), remaining: u64| (h.0 as u64) <= remaining && h.1.map(|u| u as u64 >= remaining).unwrap_or(true);
+    let run = |lo: u64, hi: u64, via_blocks: bool| -> Result<(), String> {
+        let count = hi - lo + 1;
+        let blk = AsBlock::from((asn(lo as u128), asn(hi as u128)));
+        let set: AsBlocks = [blk].into_iter().collect();
+        let mut it: Box<dyn Iterator<Item = Asn>> = if via_blocks { Box::new(set.iter_asns()) } else { Box::new(blk.iter()) };
+        let h = it.size_hint();
+        if !hint_ok(h, count) { return Err(format!("size_hint {h:?} at the start, {count} items remain")) }
+        let mut k = 0u64; let mut last = None;
+        while let Some(x) = it.next() {
+            if x.into_u32() as u64 != lo + k { return Err(format!("item {k} is {x}, expected AS{}", lo + k)) }
+            k += 1; last = Some(x.into_u32() as u64);
+            if k > count { return Err(format!("more than {count} items")) }
+            if k == count / 2 { let h = it.size_hint(); if !hint_ok(h, count - k) { return Err(format!("size_hint {h:?} after {k} items, {} remain", count - k)) } }
+        }
+        if k != count || last != Some(hi) { return Err(format!("{k} items ending at {last:?}; expected {count} items ending at AS{hi}")) }
+        if it.next().is_some() { return Err("an item after the end".into()) }
+        Ok(())
+    };
+    blocks.par_iter().for_each(|&(lo, hi)| {
+        for via in [false, true] {
+            sp.eval(); if hi > lo { sp.nontrivial(1) }
+            ctx.check(if via { "C03.as.scale.iter_asns" } else { "C03.as.scale.block_iter" }, || format!("block=AS{lo}-AS{hi}"), || run(lo, hi, via));
+        }
+        sp.outcome(if (hi - lo + 1).is_power_of_two() { "count-power-of-two" } else { "count-next-to-power-of-two" });
+    });
+    let whole: [(u64, u64); 3] = [(0, max), (1, max), (0, max - 1)];
+    for &(lo, hi) in &whole {
+        sp.eval();
+        ctx.check("C03.as.scale.size_hint", || format!("block=AS{lo}-AS{hi}"), || {
+            let blk = AsBlock::from((asn(lo as u128), asn(hi as u128)));
+            let set: AsBlocks = [blk].into_iter().collect();
+            for (what, h) in [("AsBlock::iter", blk.iter().size_hint()), ("AsBlocks::iter_asns", set.iter_asns().size_hint())] {
+                if !hint_ok(h, hi - lo + 1) { return Err(format!("{what}: size_hint {h:?}, the block has {} numbers", hi - lo + 1)) }
+            }
+            let first: Vec<u32> = set.iter_asns().take(3).map(|a| a.into_u32()).collect();
+            if first != [lo as u32, lo as u32 + 1, lo as u32 + 2] { return Err(format!("first items {first:?}")) }
+            Ok(()) });
+        sp.outcome("whole-space-size-hint");
+    }
+    if ctx.tier.is_thorough() {
+        whole.par_iter().for_each(|&(lo, hi)| {
+            sp.eval();
+            ctx.check("C03.as.scale.whole_space_iteration", || format!("block=AS{lo}-AS{hi}"), || {
+                let set: AsBlocks = [AsBlock::from((asn(lo as u128), asn(hi as u128)))].into_iter().collect();
+                let (mut k, mut last, mut ordered) = (0u64, None, true);
+                for x in set.iter_asns() { let x = x.into_u32() as u64; ordered &= x == lo + k; k += 1; last = Some(x); if k > hi - lo + 1 { break } }
+                if k != hi - lo + 1 || last != Some(hi) || !ordered { Err(format!("{k} items ending at {last:?} (in order: {ordered}); expected {} items ending at AS{hi}", hi - lo + 1)) } else { Ok(()) } });
+            sp.outcome("whole-space-iterated");
+        });
+    }
+    sp.set("blocks", json!(blocks.len()));
+    sp.sample_str(|| "AS4294901760-AS4294967295 (2^16 numbers ending at MAX)".to_string());
+    sp.done(true, &format!("{} blocks x 2 iterators; whole-space blocks: size_hint in both tiers, full iteration in thorough{}", blocks.len(), if ctx.tier.is_thorough() { " (done)" } else { " (not in this run)" }));
+}
+
 //------------ ResourceSet: product of the three families ------------------------------------------
 
 struct Rs3<'a> { a: &'a Dom, v4: &'a Dom, v6: &'a Dom }
@@ -1723,6 +2070,8 @@ fn main() {
         if dom.kind.is_ip() { ber_spellings(&ctx, dom) }
     }
     bit_strings(&ctx);
+    for (kind, name) in [(Kind::As, "as"), (Kind::V4, "v4"), (Kind::V6, "v6")] { scale(&ctx, kind, name) }
+    as_iteration(&ctx);
     if thorough {
         // wider boundary domain, construction only (2^15 subsets are too many for the pairwise closure)
         for (name, kind) in [("as14", Kind::As), ("v4x14", Kind::V4), ("v6x14", Kind::V6)] {
